@@ -191,7 +191,7 @@ func init() {
 
 	// C12: concurrent writers; the peer's raw byte log must be handshake + whole frames, per-writer order preserved, each accepted write once
 	outScenario := func(name string, quick bool, writers, per int, sizes []int, wq int, gz int, stall bool) {
-		props := []string{"C12", "C17", "C07"}
+		props := []string{"C12", "C17", "C07", "C19"}
 		if strings.Contains(name, "gzip") {
 			props = append(props, "C10") // compressed bodies through the client's write path: the receiver inflates once and sees the body
 		}
@@ -315,6 +315,20 @@ func init() {
 			}
 			// the peer answers every request frame it receives at once and the deadline is 40 units: an accepted call that fails lost its answer
 			t.Check("no_lost_wakeup", len(unanswered) == 0 || t.Warns("drop") > 0, "%d calls were accepted by the transport, answered by the peer at once, and still failed (first: %s)", len(unanswered), strings.Join(unanswered[:min(1, len(unanswered))], ""))
+			// C19 at client level: the request ids the peer saw on this connection are pairwise distinct, whatever writes failed in between
+			ridSeen := map[uint32]int{}
+			for _, f := range pc.Frames() {
+				if f.Typ == 1 && (f.WsKind == "" || f.WsKind == "binary") {
+					ridSeen[f.Rid]++
+				}
+			}
+			dupIds := 0
+			for _, k := range ridSeen {
+				if k > 1 {
+					dupIds++
+				}
+			}
+			t.Check("ids_from_one", dupIds == 0, "%d request ids were sent twice on one connection (%d request frames)", dupIds, len(ridSeen))
 			// every accepted write exactly once, per-writer order preserved
 			seen := map[int][]int{}
 			for _, f := range pc.Frames() {
